@@ -246,3 +246,78 @@ Print Assumptions C19_second_attempt_exceeds_limit.
 Theorem C19_only_timeouts_are_504 : forall e, error_status e = 504 <-> e = ENetTimeout.
 Proof. exact error_status_timeout. Qed.
 Print Assumptions C19_only_timeouts_are_504.
+
+(* ---- the whole exchange: upload, header, body ---- *)
+
+(* The response-header timeout limits the wait for the header and nothing else.  For EVERY limit,
+   every time the client needs to upload its request, every header delay and every body (any number
+   of chunks, any gaps between them): an upstream whose header does not come within the limit is
+   answered 504 at the limit, counted from the moment it has the request; any other upstream is
+   served normally - its status at its own time, ALL of its body, properly ended, at the upstream's
+   own pace, from one request that reached it whole.  [exchange_spec] speaks about the chunks through
+   [concat] / [fold_right] only; [exchange_of_proxy] delivers them one by one. *)
+Theorem C19_exchange_meets_spec : forall limit x, exchange_spec limit x (exchange_of_proxy limit x).
+Proof. exact exchange_meets_spec. Qed.
+Print Assumptions C19_exchange_meets_spec.
+
+(* composed with main()'s start-up and the transport choice, on the CONFIGURED value *)
+Theorem C19_end_to_end_exchange : forall s0 cfg tgs i tg x,
+  nth_error tgs i = Some tg ->
+  exists t, chosen (main_start set_config s0 cfg tgs) i = Some t /\
+    exchange_spec (l_rht cfg) x (exchange_of_proxy (t_rht t) x).
+Proof. exact end_to_end_exchange. Qed.
+Print Assumptions C19_end_to_end_exchange.
+
+(* readable corollary (mechanism lemma: unfolds the spec) *)
+Theorem C19_body_is_not_limited : forall limit x,
+  ~ rht_hits limit (x_delay x) ->
+  a_body (exchange_of_proxy limit x) = body_of x /\ a_complete (exchange_of_proxy limit x) = true.
+Proof. exact body_is_not_limited. Qed.
+Print Assumptions C19_body_is_not_limited.
+
+(* the exchange model extends [serve]: same status, same time of the answer *)
+Theorem C19_exchange_head_is_serve : forall limit x,
+  x_upload x = 0 ->
+  (a_status (exchange_of_proxy limit x), a_head_at (exchange_of_proxy limit x)) = serve limit (x_delay x) (x_status x).
+Proof. exact exchange_head_is_serve. Qed.
+Print Assumptions C19_exchange_head_is_serve.
+
+(* non-vacuity: a download that takes three times the limit, an upload that takes 2.5 times the
+   limit, and a silent upstream behind a slow upload (504 at upload + limit) *)
+Theorem C19_exchange_nonvacuous :
+  let slowbody := {| x_upload := 0; x_delay := 5; x_status := 200; x_chunks := [(0, bs "part1"%string); (3000, bs "part2"%string)] |} in
+  let slowupload := {| x_upload := 2500; x_delay := 20; x_status := 201; x_chunks := [(0, bs "ok"%string)] |} in
+  let silent := {| x_upload := 700; x_delay := 5000; x_status := 200; x_chunks := [(0, bs "late"%string)] |} in
+  ~ rht_hits 1000 (x_delay slowbody) /\ ~ rht_hits 1000 (x_delay slowupload) /\ rht_hits 1000 (x_delay silent) /\
+  exchange_of_proxy 1000 slowbody =
+    {| a_status := 200; a_head_at := 5; a_body := bs "part1part2"%string; a_complete := true; a_done_at := 3005; a_request_whole := true; a_hits := 1 |} /\
+  exchange_of_proxy 1000 slowupload =
+    {| a_status := 201; a_head_at := 2520; a_body := bs "ok"%string; a_complete := true; a_done_at := 2520; a_request_whole := true; a_hits := 1 |} /\
+  exchange_of_proxy 1000 silent =
+    {| a_status := 504; a_head_at := 1700; a_body := []; a_complete := true; a_done_at := 1700; a_request_whole := true; a_hits := 1 |}.
+Proof. exact exchange_nonvacuous. Qed.
+Print Assumptions C19_exchange_nonvacuous.
+
+(* about a HYPOTHETICAL deadline on the exchange as a whole with the response-header timeout as its
+   value (what one of the seeded changes puts around it), not about /repo: the header came in time
+   and the body is cut off; a slow upload to a prompt upstream is refused *)
+Theorem C19_whole_deadline_refuted : exists limit x,
+  ~ rht_hits limit (x_delay x) /\
+  a_status (exchange_with (Some limit) limit x) = x_status x /\
+  a_complete (exchange_with (Some limit) limit x) = false /\
+  a_body (exchange_with (Some limit) limit x) <> body_of x.
+Proof. exact whole_deadline_refuted. Qed.
+Print Assumptions C19_whole_deadline_refuted.
+
+Theorem C19_whole_deadline_upload_refuted : exists limit x,
+  ~ rht_hits limit (x_delay x) /\ a_status (exchange_with (Some limit) limit x) = 504 /\ x_status x <> 504 /\
+  a_request_whole (exchange_with (Some limit) limit x) = false.
+Proof. exact whole_deadline_upload_refuted. Qed.
+Print Assumptions C19_whole_deadline_upload_refuted.
+
+(* ... and no value of such a deadline would do: the spec holds for every limit and every upstream
+   exactly when the exchange as a whole has no deadline *)
+Theorem C19_spec_iff_no_whole_deadline : forall whole,
+  (forall limit x, exchange_spec limit x (exchange_with whole limit x)) <-> whole = None.
+Proof. exact spec_iff_no_whole_deadline. Qed.
+Print Assumptions C19_spec_iff_no_whole_deadline.
